@@ -1,5 +1,5 @@
 (** Pins/C02.v — the statements of the C02 theorems, pinned. *)
-From PdfV Require Import Base.Prelude Gen.Generated XRef.Model XRef.Spec XRef.MergeProofs XRef.StreamProofs XRef.FrontProofs Properties.C02.
+From PdfV Require Import Base.Prelude Gen.Generated XRef.Model XRef.Spec XRef.MergeProofs XRef.StreamProofs XRef.FrontProofs XRef.TableProofs XRef.At XRef.AtProofs Syn.Prim Syn.Parser Syn.Spells Syn.RenderProofs Properties.C02.
 Set Warnings "-notation-overridden".   (* also ends the import list for the dependency scanner of tools/vplib *)
 
 Check C02_merge_latest : forall (h : history) (secss : list (list section)) (size n : N),
@@ -34,3 +34,49 @@ Check C02_stream_no_panic : forall first num width data allow,
 Check C02_stream_bounded : forall first num w0 w1 w2 data allow s rest,
   parse_xref_section_from_stream first num [w0; w1; w2] data allow = Ok (s, rest) ->
   0 < w0 + w1 + w2 /\ lenN data = lenN rest + lenN (entries s) * (w0 + w1 + w2) /\ lenN (entries s) <= lenN data.
+Check C02_table_roundtrip : forall (L : layout) (secs : list section) (rest : bytes) (p : N),
+  layout_ok L secs -> token_end rest ->
+  read_xref_table_at (mkLx p (print_table_spec L secs ++ rest))
+  = Ok (secs, mkLx (p + lenN (print_table_spec L secs)) rest).
+Check C02_table_row_20 : forall e el, row_fits e -> lenN (print_row e el) = 20.
+Check C02_section_roundtrip : forall (R : resolver) (L : layout) (secs : list section) (d : dict) its text tl p,
+  layout_ok L secs -> spells (PDict d) its -> vdepth (PDict d) <= MAX_DEPTH ->
+  renders its text tl -> tail_ok tl ->
+  exists p', p' + lenN tl = p + lenN (print_table_spec L secs) + lenN text /\
+    read_xref_and_trailer_at R (mkLx p (print_table_spec L secs ++ text)) = Ok (secs, d, mkLx p' tl).
+Check C02_xref_at_section : forall (R : resolver) (tid : dict -> N) file pos secs d,
+  section_at file pos secs d -> xref_at_tables R tid file pos = Ok (secs, tinfo_of tid d).
+Check C02_walk_latest_tables : forall (R : resolver) (tid : dict -> N) file start (h : history) secss q0 secs0 d0 older size fuel n,
+  Forall2 represents secss h -> wf_history h ->
+  map snd ((q0, secs0) :: older) = rev secss ->
+  section_at file (start + q0) secs0 d0 ->
+  t_size (tinfo_of tid d0) = Some size -> size <= xr_max_id ->
+  chain_at tid file start (t_prev (tinfo_of tid d0)) older -> NoDup (map fst older) ->
+  (forall q, In q (q0 :: map fst older) -> start + q < lenN file) -> lenN file < usize_max ->
+  (length older <= fuel)%nat -> n < size ->
+  exists t, read_xref_table_and_trailer (xref_at_tables R tid file) (lenN file) fuel start q0 = Ok (t, tid d0) /\
+            table_get t n = Ok (xent_opt (latest h n)).
+Check C02_object_at : forall (R : resolver) allow file pos id gen v,
+  object_at file pos id gen v -> obj_at_parse R allow F_ANY file pos = Ok v.
+Check C02_resolve_latest : forall (R : resolver) (tid : dict -> N) allow (member : bytes -> prim -> N -> res prim)
+    file (h : history) secss q0 secs0 d0 older size,
+  Forall2 represents secss h -> wf_history h ->
+  map snd ((q0, secs0) :: older) = rev secss ->
+  starts_with xr_header file = true -> startxref_at file q0 ->
+  section_at file q0 secs0 d0 -> t_size (tinfo_of tid d0) = Some size -> size <= xr_max_id ->
+  chain_at tid file 0 (t_prev (tinfo_of tid d0)) older -> NoDup (map fst older) ->
+  lenN file < usize_max ->
+  (forall n g pos, latest h n = Some (Direct g pos) -> exists v, object_at file pos n g v) ->
+  (forall n s i, latest h n <> Some (Compressed s i)) ->
+  exists t, load (xref_at_tables R tid) file = Ok (0, t, tid d0) /\
+    forall n fuel, n < size ->
+      stored file 0 n (latest h n) (resolve_ref prim (obj_at_parse R allow F_ANY) member (S fuel) file 0 t n).
+Check C02_locate_startxref : forall file q, startxref_at file q -> locate_xref_offset file = Ok q.
+Check C02_table_total : forall s, no_panic (read_xref_table_at s).
+Check C02_locate_xref_total : forall file, no_panic (locate_xref_offset file).
+Check C02_lexer_progress : forall s,
+  match next_word s with
+  | Ok (_, _, s') => (length (lrest s') < length (lrest s))%nat
+  | Err _ => True
+  | _ => False
+  end.
